@@ -8,6 +8,11 @@ Theorem C16_disciplines : save_mode = AtomicRename /\ load_mode = PrivateCopy /\
   /\ load_sets_shape_and_classes = true.
 Proof. exact current_disciplines. Qed.
 
+(* compile() on a handle returned by load() (no model to translate) is refused before anything is generated, installed
+   or written: such a handle can only be called, which is the operation language of the histories below *)
+Theorem C16_compile_requires_model : compile_requires_model = true.
+Proof. reflexivity. Qed.
+
 (* EVERY finite history of compile(save to p) / load(p) / call: the process model behaves exactly as the specification
    "a call returns the model its handle was created from; load(p) yields the model most recently saved to p" *)
 Theorem C16_invariant : forall ops, run AtomicRename PrivateCopy empty ops = spec_run spec_empty ops.
@@ -37,3 +42,4 @@ Eval compute in "PA:C16_no_crash"%string. Print Assumptions C16_no_crash.
 Eval compute in "PA:C16_inplace_refuted"%string. Print Assumptions C16_inplace_refuted.
 Eval compute in "PA:C16_bypath_refuted"%string. Print Assumptions C16_bypath_refuted.
 Eval compute in "PA:C16_reentrant_structure"%string. Print Assumptions C16_reentrant_structure.
+Eval compute in "PA:C16_compile_requires_model"%string. Print Assumptions C16_compile_requires_model.
